@@ -1614,6 +1614,66 @@ func totalGsubContextAliased(rules, glyphs int) []byte {
 	return b
 }
 
+// totalGenGlyf: a glyf/loca pair with 1-3 hand-assembled simple glyphs whose contour count,
+// end points, instruction length, flags and coordinate bytes are individually plausible or
+// deliberately inconsistent (zero contours with data, non-monotone end points: DESIGN §9 #6).
+func totalGenGlyf(r *Rng) (glyfData, loca []byte) {
+	ng := r.Range(1, 3)
+	offs := []int{0}
+	for g := 0; g < ng; g++ {
+		var b []byte
+		if r.Chance(1, 8) {
+			// empty glyph
+		} else {
+			nc := Pick(r, []int{1, 1, 2, 3, 0, 0, -1, -2, 0x7fff, 40})
+			b = append(b, totalBe16b(nc)...)
+			b = append(b, 0, 0, 0, 0, 0, 10, 0, 10) // bounding box
+			realNc := nc
+			if realNc < 0 || realNc > 6 {
+				realNc = r.Intn(3)
+			}
+			np := 0
+			for i := 0; i < realNc; i++ {
+				e := np + r.Range(0, 3)
+				switch r.Intn(8) {
+				case 0:
+					e = np - r.Range(1, 3) // non-monotone
+				case 1:
+					e = Pick(r, []int{0xffff, 0x7fff, 200})
+				}
+				b = append(b, totalBe16b(e)...)
+				if e >= np && e < 64 {
+					np = e + 1
+				}
+			}
+			il := Pick(r, []int{0, 0, 0, 2, 0xffff, 1})
+			b = append(b, totalBe16b(il)...)
+			if il < 16 {
+				b = append(b, r.Bytes(il)...)
+			}
+			for i := 0; i < np+r.Intn(2); i++ {
+				b = append(b, Pick(r, []byte{0x01, 0x37, 0x36, 0x09, 0x08, 0x00, 0x1e, 0x21, byte(r.U64())}))
+				if r.Chance(1, 6) {
+					b = append(b, byte(Pick(r, []int{0, 1, 3, 255})))
+				}
+			}
+			b = append(b, r.Bytes(r.Intn(2*np+3))...)
+			if r.Chance(1, 5) && len(b) > 0 {
+				b = b[:r.Intn(len(b)+1)]
+			}
+			if len(b)%2 == 1 {
+				b = append(b, 0)
+			}
+		}
+		glyfData = append(glyfData, b...)
+		offs = append(offs, len(glyfData))
+	}
+	for _, o := range offs {
+		loca = append(loca, totalBe16b(o/2)...)
+	}
+	return glyfData, loca
+}
+
 // ---------------------------------------------------------------- mutations
 
 func totalMutate(r *Rng, b []byte) ([]byte, string) {
@@ -1714,6 +1774,21 @@ func totalFontTableMutate(r *Rng, file []byte) ([]byte, string) {
 			}
 		}
 		return c, "font-hide-table"
+	}
+	if r.Chance(1, 4) {
+		// the count fields that tie tables to each other
+		fields := []struct {
+			tab string
+			off int
+		}{{"maxp", 4}, {"hhea", 34}, {"post", 32}, {"head", 50}, {"head", 18}, {"OS/2", 0}, {"cmap", 2}, {"post", 0}, {"post", 2}, {"hhea", 0}, {"maxp", 0}, {"maxp", 2}}
+		f := Pick(r, fields)
+		if rec, ok := info.Toc[f.tab]; ok && int(rec.Length) >= f.off+2 && int(rec.Offset+rec.Length) <= len(c) {
+			at := int(rec.Offset) + f.off
+			v := int(c[at])<<8 | int(c[at+1])
+			v = Pick(r, []int{v + 1, v - 1, v - 2, v + 2, v / 2, 2 * v, 0, 1, 2, 3, 0xffff})
+			c[at], c[at+1] = byte(v>>8), byte(v)
+			return c, "font-count-field"
+		}
 	}
 	for k := r.Range(1, 2); k > 0; k-- {
 		n := Pick(r, names)
@@ -1893,6 +1968,10 @@ func areaTotal(c *Ctx) {
 			both("header", "structured", "gen", totalGenHeaderFile(r), "")
 		case 3:
 			both("maxp", "structured", "gen", totalGenMaxp(r), "")
+		}
+		if i%2 == 0 {
+			g, l := totalGenGlyf(r)
+			emit("glyf", "structured", "gen", g, " loca="+hx(l)+" fmt=0")
 		}
 		if i%8 == 0 {
 			emit("classdef", "structured", "gen", totalGenClassDef(r), "")
